@@ -232,7 +232,13 @@ def run_property(prop, cfg, tier, seed, scratch, t0):
     unit_infos = []
     demoted_labels = []
     for uname in cfg.get('verus_units', []):
-        run = VerusUnitRun(uname, scratch)
+        try:
+            run = VerusUnitRun(uname, scratch)
+        except (Undecided, LexError, KeyError) as e:
+            # an item / function the unit selects no longer exists in the current text: the unit cannot be generated. That is undecided for
+            # the contract layer, but the bounded checks of the property (xrun, Kani) still run on the compiled code and may decide.
+            undecided.append('%s: unit cannot be generated from the current text (%s)' % (uname, str(e)[:300]))
+            continue
         res = run.res
         cmds.append('cd <scratch> && ' + res.cmd)
         solver_ms += res.smt_ms
